@@ -31,6 +31,9 @@ pub struct Cfg {
     /// log files of earlier periods (and one unrelated file) already present when the appender is built
     #[serde(default)]
     pub backlog: usize,
+    /// build through the convenience constructors `rolling::{minutely, hourly, daily, never}`
+    #[serde(default)]
+    pub ctor: bool,
 }
 
 static DIRN: AtomicU64 = AtomicU64::new(0);
@@ -110,6 +113,14 @@ fn file_name(c: &Cfg, t: i64) -> String {
 }
 
 fn build(c: &Cfg, dir: &Path) -> Result<RollingFileAppender, String> {
+    if c.ctor {
+        return Ok(match c.rotation {
+            0 => tracing_appender::rolling::minutely(dir, "pre"),
+            1 => tracing_appender::rolling::hourly(dir, "pre"),
+            2 => tracing_appender::rolling::daily(dir, "pre"),
+            _ => tracing_appender::rolling::never(dir, "pre"),
+        });
+    }
     let mut b = RollingFileAppender::builder().rotation(rot(c.rotation));
     if c.prefix {
         b = b.filename_prefix("pre");
@@ -348,7 +359,7 @@ pub fn run_schedule(job: &[u8]) -> Vec<u8> {
     let sc: Scenario = serde_json::from_str(&job.scenario).unwrap();
     sched::install_hooks();
     let dir = fresh_dir();
-    let c = Cfg { rotation: sc.rotation, prefix: true, suffix: false, max_files: sc.max_files, make_writer: true, clock: vec![], backlog: 0 };
+    let c = Cfg { rotation: sc.rotation, prefix: true, suffix: false, max_files: sc.max_files, make_writer: true, clock: vec![], backlog: 0, ctor: false };
     let t0 = days_from_civil(2021, 6, 15) * 86_400 + 13 * 3600 + 10;
     let p = period_len(sc.rotation).unwrap_or(3600);
     let t1 = (t0 / p + 1) * p; // exactly the next boundary
@@ -504,12 +515,15 @@ pub fn run(args: &Args) -> i32 {
                     let full = true;
                     for (i, s) in ss.iter().enumerate() {
                         if full || i % 12 == (rotation as usize + max_files) % 12 {
-                            cfgs.push(Cfg { rotation, prefix, suffix, max_files, make_writer, clock: s.clone(), backlog: 0 });
+                            cfgs.push(Cfg { rotation, prefix, suffix, max_files, make_writer, clock: s.clone(), backlog: 0, ctor: false });
+                            if prefix && !suffix && max_files == 0 && i % 3 == 0 {
+                                cfgs.push(Cfg { rotation, prefix, suffix, max_files, make_writer, clock: s.clone(), backlog: 0, ctor: true });
+                            }
                         }
                         // a directory that already holds more log files than the limit
                         if max_files > 0 && rotation != 3 && (i % tier_mod == (rotation as usize * 3 + max_files) % tier_mod) {
                             for backlog in [max_files, max_files + 2] {
-                                cfgs.push(Cfg { rotation, prefix, suffix, max_files, make_writer, clock: s.clone(), backlog });
+                                cfgs.push(Cfg { rotation, prefix, suffix, max_files, make_writer, clock: s.clone(), backlog, ctor: false });
                             }
                         }
                     }
